@@ -1,7 +1,14 @@
 HS = "harness/seg_purge.c"
-OPT = ["mi_option_get", "mi_option_is_enabled", "mi_option_get_clamp"]
+OPT = ["mi_option_get", "mi_option_is_enabled", "mi_option_get_clamp", "_mi_option_get_fast"]
 STUBS = ["_mi_os_purge", "_mi_os_commit", "_mi_clock_now", "_mi_preloading"] + OPT
 NOPTR = ["--no-pointer-check"]     # header-only segment object, see plan/C18.py
+RECL = ["_mi_heap_memid_is_suitable", "_mi_arena_field_cursor_init", "_mi_arena_field_cursor_done",
+        "mi_segment_check_free/c_check_free_rec", "mi_segment_reclaim/c_segment_reclaim_rec", "_mi_arena_segment_mark_abandoned", "mi_segment_try_purge/c_seg_try_purge_rec2",
+        "_mi_arena_segment_clear_abandoned", "mi_segment_get_reclaim_tries/c_reclaim_tries_use"] + OPT
+def R(n, e, f, **kw):
+    # the walk over abandoned segments is unwound K+2 times (the cursor contract yields at most K segments); 14 is for the contract library's own loops
+    return dict(dict(name=n, entry=e, harness="harness/seg_reclaim.c", enforce=f, replace=RECL, config="SCALED", label="B", K=2, functions=[f], timeout=600, unwind=14,
+                     unwindset={f + ".0": 4}), **kw)
 def pairs():
     P = lambda n, e, f, rep, **kw: dict(dict(name=n, entry=e, harness=HS, enforce=f, replace=rep + STUBS, config="SCALED", label="PC", functions=[f], timeout=600, cbmc_flags=NOPTR, unwind=14, unwindset={"_mi_commit_mask_committed_size.0": 66, "_mi_commit_mask_committed_size.1": 66}), **kw)
     return {
@@ -10,6 +17,10 @@ def pairs():
       "seg_commit": P("seg_commit", "h_commit", "mi_segment_commit", []),
       "segment_os_alloc": dict(name="segment_os_alloc", entry="h_segment_os_alloc", harness="harness/seg_alloc.c", enforce="mi_segment_os_alloc", config="SCALED", label="PC", unwind=14,
                   replace=["_mi_arena_alloc_aligned", "_mi_os_commit/c_os_commit_rec2", "_mi_arena_free", "mi_segments_track_size", "_mi_segment_map_allocated_at"] + OPT,
-                  functions=["mi_segment_os_alloc"], timeout=600, cbmc_flags=NOPTR),
+                  functions=["mi_segment_os_alloc"], timeout=600, cbmc_flags=NOPTR, replay={"src": "replay_src/witness_c07.c"}),
+      "reclaim_all": R("reclaim_all", "h_reclaim_all", "_mi_abandoned_reclaim_all", replay={"src": "replay_src/witness_c15.c"}),
+      "abandoned_collect": R("abandoned_collect", "h_abandoned_collect", "_mi_abandoned_collect", tier="thorough", timeout=3000),
+      "try_reclaim": R("try_reclaim", "h_try_reclaim", "mi_segment_try_reclaim", tier="thorough", timeout=3000),
+      "attempt_reclaim": R("attempt_reclaim", "h_attempt_reclaim", "_mi_segment_attempt_reclaim", label="P", K=None),
       "seg_ensure_committed": P("seg_ensure_committed", "h_ensure_committed", "mi_segment_ensure_committed", ["mi_segment_commit/c_seg_commit_rec"]),
     }
